@@ -678,8 +678,61 @@ func randomData(c *core.Ctx, maxN int) gen.C13Data {
 	return gen.C13Random(r, o)
 }
 
+// laneData: long sequences whose count of one base sits exactly on 2^8 or 2^16, with one-difference
+// variants on both sides of that count (what a composition filter packed in 8 or 16 bit lanes, or a
+// length stored in a short integer, gets wrong). One or two samples, the root is the most abundant.
+func laneData(c *core.Ctx) gen.C13Data {
+	r := c.Rng
+	lane := []int{256, 65536, 65536}[r.Intn(3)]
+	base := gen.ACGT[r.Intn(4)]
+	others := strings.ReplaceAll(gen.ACGT, string(base), "")
+	root := bytes.Repeat([]byte{base}, lane)
+	for i := 0; i < lane/3+r.Intn(50); i++ {
+		root = append(root, others[r.Intn(3)])
+	}
+	r.Shuffle(len(root), func(i, j int) { root[i], root[j] = root[j], root[i] })
+	posOf := func(want bool) int { // a position holding (or not holding) the base
+		for {
+			p := r.Intn(len(root))
+			if (root[p] == base) == want {
+				return p
+			}
+		}
+	}
+	ds := gen.C13Data{Kind: "lanes", Tag: "sample", Samples: []string{"s1"}}
+	if r.Intn(2) == 0 {
+		ds.Samples = append(ds.Samples, "s2")
+	}
+	add := func(id string, seq []byte, n int) {
+		cs := map[string]int{}
+		for _, smp := range ds.Samples {
+			cs[smp] = n + r.Intn(3)
+		}
+		ds.Seqs = append(ds.Seqs, gen.C13Seq{Id: id, Seq: seq, Counts: cs})
+	}
+	add("root", root, 1000)
+	p := posOf(true)
+	add("del_base", append(append([]byte{}, root[:p]...), root[p+1:]...), 10)
+	p = posOf(true)
+	v := append([]byte{}, root...)
+	v[p] = others[r.Intn(3)]
+	add("sub_base_away", v, 20)
+	p = r.Intn(len(root) + 1)
+	add("ins_base", append(append(append([]byte{}, root[:p]...), base), root[p:]...), 30)
+	p = posOf(false)
+	v = append([]byte{}, root...)
+	v[p] = base
+	add("sub_to_base", v, 40)
+	ds.Star, ds.Depth = 4, 1
+	return ds
+}
+
 func runExact(c *core.Ctx) {
 	ds := randomData(c, c.Pick(600, 2000))
+	if c.Idx%16 == 15 {
+		ds = laneData(c)
+		c.Count("lane_boundary_data_sets", 1)
+	}
 	cf := config{1, 1.0}
 	if !selfCheckRef(c, ds) {
 		c.Inconclusive("reference self-check failed: one-edit test disagrees with the Levenshtein DP")
@@ -803,7 +856,7 @@ func init() {
 		Level: "exploration",
 		Rule: "data sets = 1-6 samples x 20-2000 records: families of one-edit variants (stars on a root, chains, random attachment), 2-3-edit and unrelated records, repeated sequences, homopolymer runs, dense two-letter sets, counts wide / narrow (ties) / proportional to the model (ties and inversions), merged_<tag> maps or one <tag> attribute per record; contention sets = top <- 1-3 abundant variants <- 150-2500 one-error sons each; " +
 			"every data set is run through the package's own graph construction (VerifGraph, real worker pool) and through the obiclean command; oracle = brute-force graph (own one-edit test, self-checked against the Levenshtein DP) for edges / status / mutation / head flag / counts at distance 1, ratio 1, and equality of every written annotation with the 1-worker execution for workers 2..32 x repetitions x distance 1-3 x ratio {1,0.5,0.1,0.05}; race twin on the same executions. " +
-			"Added later: data sets with ambiguity codes (n, r, y: symbols like the others for the one-difference test). " +
+			"Added later: data sets with ambiguity codes (n, r, y: symbols like the others for the one-difference test). Sequences of 340 / 87000 bases whose count of one base is exactly 2^8 / 2^16, with one-difference variants on both sides of that count. " +
 			"distinct_nontrivial = distinct (sub-check, data-set kind, #samples, size class, ties planted, chain depth, star size class, attribute mode, distance, ratio, worker count) classes of executions whose graph has at least one edge",
 		Assume: []string{"sequences are non-empty, over a,c,g,t (one data set in ten or so also uses the codes n, r, y, compared as plain symbols), record identifiers are unique", "every record names at least one sample with a count >= 1",
 			"the mutation is written (father symbol)->(son symbol)@(1-based position of that symbol), '-' for the missing symbol, as the Edge fields From/To of the package say",
